@@ -7,4 +7,6 @@ if ! "$PY" -c "import hypothesis" >/dev/null 2>&1; then
   PIP_NO_INDEX=1 "$PY" -m pip install --no-index --find-links /opt/veriftools/wheels hypothesis
 fi
 "$PY" -c "import hypothesis, numpy, scipy; print('hypothesis', hypothesis.__version__)"
+# atheris (coverage-guided campaign of the C10 thorough tier) goes next to the checks; optional: the campaign is skipped if it is missing
+if [ ! -d .deps/atheris ]; then PIP_NO_INDEX=1 "$PY" -m pip install --no-index --find-links /opt/veriftools/wheels --target .deps atheris -q || true; fi
 mkdir -p evidence replays/out
